@@ -22,7 +22,7 @@ func (P *Program) genVC(fn *ssa.Function, opts genOpts) (vc *VC) {
 	}
 	build := func(pass int) (vc *VC) {
 		vc = &VC{P: P, tt: newTypeTable(), fn: fn, names: map[string]int{}, declared: map[string]bool{}, pass: pass, loopMods: loopMods,
-			strs: map[string]Term{}, globals: map[string]int{}, heapSorts: map[string]Sort{}, watch: map[string]bool{}, obNames: map[string]int{}, autoInv: autoInv,
+			strs: map[string]Term{}, globals: map[string]int{}, heapSorts: map[string]Sort{}, watchHit: map[string]bool{}, watch: map[string]bool{}, obNames: map[string]int{}, autoInv: autoInv,
 			houdini: opts.houdini, houdiniCheck: opts.houdiniCheck, noInline: opts.noInline}
 		defer func() {
 			if r := recover(); r != nil {
